@@ -128,3 +128,61 @@ Theorem C08_restart_after_seal_invisible :
     = spec.ElectionSpec.reference_epochs seal polr vals ep Ds.
 Proof. exact proofs.LinkEpochsCor.link_restart_after_seal. Qed.
 Print Assumptions C08_restart_after_seal_invisible.
+
+(* ================= Round 3 (worker link): restarts at every boundary of multi-epoch runs =================
+   (proofs/LinkEpochX.v nl_x: restart_step under an arbitrary policy; LinkEpochsX.link_x; LinkXCor.v)
+   C08_restart_invisible_across_epochs: restarts (OpR) anywhere in the noise of a run over several epochs
+   under an arbitrary sealing policy -- before a Build, between a Build and its Process, after a rejected
+   Process, in the middle of epoch 2 or later, in epoch 1 of a run that seals later, after the sealing block
+   (then in the next epoch's empty instance) -- are invisible: with the restart entries removed the run equals
+   the run of the same schedules without noise (verdicts, Build frames, decided frames and epoch after every
+   Process, blocks, cheaters, seals, validator sets).
+   C08_restart_reports_the_decided_state: every restart itself is observed (rendered with code 8) and reports
+   no error, no block, and exactly the decided frame and the epoch of the reference at that point
+   (LinkX.ref_x: restarts (st_of T) ..., st_of T = (number of blocks of the table, epoch); after the sealing
+   block: (0, epoch + 1)) -- this is part of the equation of link_x.  Hypotheses: on the input only. *)
+From LV Require proofs.LinkReject proofs.LinkX proofs.LinkEpochsX proofs.LinkXCheck proofs.LinkXCor proofs.LinkXExample proofs.LinkXCorExample.
+
+Theorem C08_restart_invisible_across_epochs : forall cap lam pol vals Ss K,
+  vals <> [] -> proofs.LinkEpochsX.epochs_ok_x pol K vals 1 Ss -> (N.of_nat (proofs.LinkEpochsX.total_builds Ss) <= K)%N -> (K < 2 ^ 192)%N ->
+  map proofs.LinkXCor.strip8 (proofs.LinkEpochsX.model_epochs_x cap lam pol (model.AbftRun.start 1 vals) vals 1 Ss) =
+  proofs.LinkEpochsX.model_epochs_x cap lam pol (model.AbftRun.start 1 vals) vals 1 (map proofs.LinkXCor.clean_S Ss).
+Proof. exact proofs.LinkXCor.link_x_noise_invisible. Qed.
+
+Theorem C08_restart_reports_the_decided_state : forall cap lam pol vals Ss K,
+  vals <> [] -> proofs.LinkEpochsX.epochs_ok_x pol K vals 1 Ss -> (N.of_nat (proofs.LinkEpochsX.total_builds Ss) <= K)%N -> (K < 2 ^ 192)%N ->
+  proofs.LinkEpochsX.model_epochs_x cap lam pol (model.AbftRun.start 1 vals) vals 1 Ss =
+  map (fun r => (fst (fst r), snd (fst r), option_map model.Abft.mk_vals (snd r))) (proofs.LinkEpochsX.ref_epochs_x pol vals 1 Ss).
+Proof. exact proofs.LinkEpochsX.link_x. Qed.
+
+(* the three-epoch run: 11 restarts; those of epoch 1 report decided frame 0, 0, 0, 1 in epoch 1 and, after the
+   sealing block, decided frame 0 in epoch 2 *)
+Example C08_restarts_across_epochs_example :
+  proofs.LinkXCheck.epochs_ok_xb proofs.LinkXExample.xx_pol 400 proofs.BftProps.ex_vals 1 proofs.LinkXExample.xx_Ss = true /\
+  map (fun e : proofs.LinkX.ev_x => snd e)
+      (filter (fun e : proofs.LinkX.ev_x => (fst (fst e) =? 8)%N)
+         (fst (fst (nth 0 (proofs.LinkEpochsX.ref_epochs_x proofs.LinkXExample.xx_pol proofs.BftProps.ex_vals 1 proofs.LinkXExample.xx_Ss) ([], [], None))))) =
+    [Some (0, 1); Some (0, 1); Some (0, 1); Some (1, 1); Some (0, 2); Some (0, 2); Some (0, 2)]%N /\
+  proofs.LinkEpochsX.model_epochs_x 3 proofs.LinkXExample.xx_lam proofs.LinkXExample.xx_pol (model.AbftRun.start 1 proofs.BftProps.ex_vals) proofs.BftProps.ex_vals 1 proofs.LinkXExample.xx_Ss =
+  map (fun r => (fst (fst r), snd (fst r), option_map model.Abft.mk_vals (snd r)))
+      (proofs.LinkEpochsX.ref_epochs_x proofs.LinkXExample.xx_pol proofs.BftProps.ex_vals 1 proofs.LinkXExample.xx_Ss) /\
+  map proofs.LinkXCor.strip8 (proofs.LinkEpochsX.model_epochs_x 3 proofs.LinkXExample.xx_lam proofs.LinkXExample.xx_pol (model.AbftRun.start 1 proofs.BftProps.ex_vals) proofs.BftProps.ex_vals 1 proofs.LinkXExample.xx_Ss) =
+  proofs.LinkEpochsX.model_epochs_x 3 proofs.LinkXExample.xx_lam proofs.LinkXExample.xx_pol (model.AbftRun.start 1 proofs.BftProps.ex_vals) proofs.BftProps.ex_vals 1 (map proofs.LinkXCor.clean_S proofs.LinkXExample.xx_Ss).
+Proof.
+  exact (conj proofs.LinkXExample.xx_input_ok (conj proofs.LinkXExample.xx_restarts_epoch1
+        (conj proofs.LinkXExample.xx_refines_by_evaluation proofs.LinkXCorExample.xx_noise_invisible))).
+Qed.
+
+(* an instance of C08_restart_after_seal_invisible (round 2): the instance that the sealing block of epoch 1 of
+   the two-epoch run leaves behind is restarted before the events of epoch 2 *)
+Example C08_restart_after_seal_example :
+  proofs.LinkXCorExample.me_used = proofs.LinkEpochs.fresh_inst 2 (model.Abft.mk_vals proofs.BftProps.ex_vals) [] 23 (model.AbftRun.i_es proofs.LinkXCorExample.me_used) /\
+  (let i0 := proofs.LinkEpochs.fresh_inst 2 (model.Abft.mk_vals proofs.BftProps.ex_vals) [] 23 (model.AbftRun.i_es proofs.LinkXCorExample.me_used) in
+   fst (fst (model.AbftRun.step 200 proofs.LinkXCorExample.me_pol model.Abft.sample i0 model.AbftRun.OpR)) = model.AbftRun.ObsR None [] 0 2 /\
+   proofs.LinkEpochs.model_epochs 200 (fun _ => 0%N) proofs.LinkXCorExample.me_pol 0
+     (snd (fst (model.AbftRun.step 200 proofs.LinkXCorExample.me_pol model.Abft.sample i0 model.AbftRun.OpR))) proofs.BftProps.ex_vals 2 [proofs.LinkEpochsExample.me_D2]
+   = spec.ElectionSpec.reference_epochs 1 0 proofs.BftProps.ex_vals 2 [proofs.LinkEpochsExample.me_D2]).
+Proof. exact (conj proofs.LinkXCorExample.me_used_is_that_instance proofs.LinkXCorExample.me_restart_after_seal). Qed.
+
+Print Assumptions C08_restart_invisible_across_epochs.
+Print Assumptions C08_restart_reports_the_decided_state.
